@@ -1,21 +1,23 @@
 (* C08 — proofs about the pump (Conc/TlsPump.v): data-flow invariants over every trace of the multi-task system. *)
 From Coq Require Import ZArith List Bool Lia ZifyBool.
-From EN Require Import Lib.Bytes Conc.TlsBase Conc.TlsPump Gen.ParamsC08.
+From EN Require Import Lib.Bytes Conc.TlsBase Conc.TlsPump Proofs.Tls_tactics.
 
-(* the proofs must hold whatever the regenerated flag says *)
-Opaque recheck_after_recv_lock send_lock_only_if_pending.
-Ltac flush_cases :=
-  unfold flush_pc in *;
-  repeat match goal with
-  | H : context [send_lock_only_if_pending && wbio_empty ?s] |- _ =>
-      let E := fresh "Esk" in destruct (send_lock_only_if_pending && wbio_empty s) eqn:E
-  | |- context [send_lock_only_if_pending && wbio_empty ?s] =>
-      let E := fresh "Esk" in destruct (send_lock_only_if_pending && wbio_empty s) eqn:E
-  end.
-Ltac go_recv H sn :=
-  unfold go in H; destruct (recv_lock _) eqn:?L; [discriminate |];
-  destruct (recheck_after_recv_lock && negb (Nat.eqb (feeds _) sn)).
 
+
+Section PumpFacts.
+Variable fl : flags.
+Notation flush_pc := (flush_pc fl).
+Notation pcall := (pcall fl).
+Notation after_flush := (after_flush fl).
+Notation go := (go fl).
+Notation step := (step fl).
+Notation settle_n := (settle_n fl).
+Notation settle := (settle fl).
+Notation retry := (retry fl).
+Notation start := (start fl).
+Notation run_method := (run_method fl).
+Notation sys_step := (sys_step fl).
+Notation sys_run := (sys_run fl).
 
 (* a trace all of whose labels the model accepts *)
 Fixpoint sys_exec (y : sys) (ls : list slab) : option (sys * list (nat * act)) :=
@@ -169,15 +171,24 @@ Qed.
 
 (* a task reaches "waiting to read" only from the flush point of the WANT_READ branch, either because the outgoing BIO
    was empty when it held the send lock, or after its send_all of the whole outgoing BIO returned *)
+Lemma wbio_empty_true : forall s, wbio_empty s = true -> wbio s = [].
+Proof. intros s H. unfold wbio_empty in H. destruct (wbio s); [reflexivity | discriminate]. Qed.
+
 Lemma recvwait_only_after_flush : forall m b s p l s' a n,
   step m b s p l = Some (s', PRecvWait n, a) ->
-  (p = PFlush (KRead n) /\ l = LGo /\ wbio s = [] /\ a = []) \/ (p = PSending (KRead n) /\ l = LT TSent).
+  (p = PFlush (KRead n) /\ l = LGo /\ wbio s = [] /\ a = []) \/ (p = PSending (KRead n) /\ l = LT TSent) \/
+  (p = PCall /\ (exists x, l = LSsl x /\ a_out x = SWantRead) /\ wbio s' = [] /\ a = []).
 Proof.
   intros m b s p l s' a n H.
   destruct p as [ | k | k | sn | | r]; destruct l as [x | | t]; cbv beta iota delta [step] in H; try discriminate.
-  - destruct (negb _); [inversion H |]. cbv zeta in H. destruct (a_out x); try (inversion H; fail).
-    destruct m; try (inversion H; fail).
-    match type of H with context [match ?d with [] => Some _ | _ :: _ => Some _ end] => destruct d end; inversion H.
+  - destruct (negb _); [inversion H |]. cbv zeta in H. destruct (a_out x) eqn:Eo; try (inversion H; fail).
+    + destruct m; try (flush_cases; inversion H; fail).
+      match type of H with context [match ?d with [] => Some _ | _ :: _ => Some _ end] => destruct d end;
+        flush_cases; inversion H.
+    + unfold flush_pc in H.
+      destruct (f_skiplock fl && wbio_empty (set_wbio s (wbio s ++ a_wdelta x))) eqn:Sk; inversion H; subst.
+      right; right. apply andb_prop in Sk. destruct Sk as [_ Sk]. apply wbio_empty_true in Sk.
+      split; [reflexivity |]. split; [eauto |]. split; [exact Sk | reflexivity].
   - unfold go in H. destruct (send_lock s); try discriminate.
     destruct (wbio s) as [| w0 w'] eqn:Ew.
     + destruct k; cbn in H; try (inversion H; fail).
@@ -186,14 +197,15 @@ Proof.
   - destruct t; inversion H.
   - destruct t as [d | | | | bt]; try discriminate; cbv zeta in H.
     + destruct k; cbn in H.
-      * inversion H; subst. right; auto.
-      * unfold pcall in H. destruct m; try (inversion H; fail). destruct (deque _); inversion H.
+      * inversion H; subst. right; left; auto.
+      * unfold pcall in H. destruct m; try (inversion H; fail). destruct (deque _); flush_cases; inversion H.
       * inversion H.
     + destruct k; inversion H.
-  - go_recv H sn; [unfold pcall in H; destruct m; try destruct (deque s); inversion H | inversion H].
+  - go_recv H sn; [unfold pcall in H; destruct m; try (inversion H; fail); destruct (deque s); flush_cases; inversion H | inversion H].
   - destruct t; inversion H.
   - destruct t as [d | | | | bt]; try discriminate; cbv zeta in H.
-    destruct d; inversion H as [[H1 H2 H3]]; unfold pcall in H2; destruct m; try discriminate; destruct (deque _); discriminate.
+    destruct d; inversion H as [[H1 H2 H3]]; unfold pcall in H2; destruct m; try discriminate; destruct (deque _);
+      flush_cases; discriminate.
 Qed.
 
 (* recv_into is started only from "waiting to read" *)
@@ -244,8 +256,12 @@ Proof.
   exists (set_send_lock (set_wbio (set_wbio s (wbio s ++ a_wdelta x)) []) true).
   split; [| split].
   - unfold step. rewrite Hm, Ha, Ho.
-    replace (meth_eqb m m) with true by (destruct m; reflexivity). rewrite Nat.eqb_refl. cbn. reflexivity.
+    replace (meth_eqb m m) with true by (destruct m; reflexivity). rewrite Nat.eqb_refl.
+    cbn [andb negb]. cbv zeta. unfold flush_pc, wbio_empty. cbn [wbio set_wbio feeds].
+    destruct (wbio s ++ a_wdelta x); [congruence |]. rewrite andb_false_r. reflexivity.
   - unfold settle. cbn [settle_n go send_lock set_wbio wbio]. rewrite Hl.
     destruct (wbio s ++ a_wdelta x) as [| w0 w] eqn:Ew; [congruence |]. cbn. reflexivity.
   - reflexivity.
 Qed.
+
+End PumpFacts.
